@@ -668,17 +668,43 @@ func opCtorRid(a []string) (string, []Fail) {
 	if (e1 == nil) != (e2 == nil) {
 		c.fail("C19", "twin:NewRouterIdentity/NewRouterIdentityFromKeysAndCert", "acceptance differs for types (%d,%d): %v vs %v", sig, cpk, e1, e2)
 	}
+	// constructor 3: the padding is generated (Proposal 161 "compressible": one 32-byte block repeated)
+	var r3 *router_identity.RouterIdentity
+	var e3 error
+	if p := try(func() { r3, e3 = router_identity.NewRouterIdentityWithCompressiblePadding(cp, sp, cert) }); p != "" {
+		c.panicked("compressible-padding", p)
+		e3 = errors.New("panic")
+	}
+	if (e1 == nil) != (e3 == nil) {
+		c.fail("C19", "twin:NewRouterIdentity/NewRouterIdentityWithCompressiblePadding", "acceptance differs for types (%d,%d): %v vs %v", sig, cpk, e1, e3)
+	}
+	if e3 == nil && r3 != nil && r3.KeysAndCert != nil && e1 == nil {
+		want := 384 - id.kc.CryptoSize() - id.kc.SigningPublicKeySize()
+		if len(r3.Padding) != want {
+			c.fail("C10", "layout:compressible-padding-length", "NewRouterIdentityWithCompressiblePadding: %d padding bytes for types (%d,%d), the key block leaves %d", len(r3.Padding), sig, cpk, want)
+		}
+		// same keys and certificate ⇒ the two constructors differ in the padding bytes only
+		b1, _ := r1.KeysAndCert.Bytes()
+		b3, _ := r3.KeysAndCert.Bytes()
+		cs, ss := id.kc.CryptoSize(), id.kc.SigningPublicKeySize()
+		if len(b1) != len(b3) || len(b3) < 384 || !bytes.Equal(b1[:cs], b3[:cs]) || !bytes.Equal(b1[384-ss:], b3[384-ss:]) {
+			c.fail("C19", "twin:NewRouterIdentity/NewRouterIdentityWithCompressiblePadding", "serialisations differ outside the padding for types (%d,%d)", sig, cpk)
+		}
+	}
 	if e1 != nil {
 		c.note("err")
 		return c.line(), c.fails
 	}
 	c.note("ok")
-	for i, r := range []*router_identity.RouterIdentity{r1, r2} {
+	for i, r := range []*router_identity.RouterIdentity{r1, r2, r3} {
 		if r == nil {
 			continue
 		}
 		if i == 1 {
 			c.S = "RouterIdentityFromKeysAndCert"
+		}
+		if i == 2 {
+			c.S = "RouterIdentityWithCompressiblePadding"
 		}
 		if c.ctorValid(r.Validate(), kacRule(r.KeysAndCert)) {
 			b, berr := r.KeysAndCert.Bytes()
@@ -1549,6 +1575,32 @@ func opCtorELS(a []string) (string, []Fail) {
 			return c.line(), c.fails
 		}
 		c.defect(variant, true, err, true, els.Validate())
+	}
+	// twin: NewEncryptedLeaseSetFromDestination takes type and blinded key from a Destination (no offline block:
+	// an offline signature is bound to one blinded key)
+	if variant == "ok" && offArg == "-" && (sigType == 7 || sigType == 11) {
+		if d, dk, derr := ctorDestination(sigType, 4, false, seed); derr == nil && d != nil && dk.ed != nil {
+			var t1, t2 *encrypted_leaseset.EncryptedLeaseSet
+			var te1, te2 error
+			if p := try(func() {
+				t1, te1 = encrypted_leaseset.NewEncryptedLeaseSetFromDestination(*d, published, expires, flags, nil, inner, dk.ed)
+				t2, te2 = encrypted_leaseset.NewEncryptedLeaseSet(uint16(sigType), dk.pub, published, expires, flags, nil, inner, dk.ed)
+			}); p != "" {
+				c.panicked("from-destination", p)
+			} else if (te1 == nil) != (te2 == nil) {
+				c.fail("C19", "twin:NewEncryptedLeaseSet/FromDestination", "acceptance differs: %v vs %v", te1, te2)
+			} else if te1 == nil {
+				tb1, _ := t1.Bytes()
+				tb2, _ := t2.Bytes()
+				sl := t1.Signature().Len()
+				if len(tb1) != len(tb2) || len(tb1) < sl || !bytes.Equal(tb1[:len(tb1)-sl], tb2[:len(tb2)-sl]) {
+					c.fail("C19", "twin:NewEncryptedLeaseSet/FromDestination", "serialisations differ before the signature")
+				}
+				if verr := t1.Verify(); verr != nil && innerLen <= 65535 {
+					c.fail("C06", "ctor-does-not-verify:EncryptedLeaseSetFromDestination", "Verify() fails on the value NewEncryptedLeaseSetFromDestination just signed: %v", verr)
+				}
+			}
+		}
 	}
 	if err != nil {
 		c.note("err")
